@@ -322,7 +322,7 @@ def run(ctx):
         if ctx.mine(i) and (not ctx.quick or i % 4 == ctx.seed % 4) and not ctx.out_of_time(0.4):
             m = Chem.MolFromSmiles(s)
             if m is not None and m.GetNumAtoms() > 1:
-                for t in Chem.MolToRandomSmilesVect(m, 1 if ctx.quick else 4, randomSeed=rng.randrange(1, 10**6)):
+                for t in Chem.MolToRandomSmilesVect(m, 1 if ctx.quick else 12, randomSeed=rng.randrange(1, 10**6)):
                     check_molecule(ctx, t, "random-order rewritings")
     wf = corpus.wellformed_reactions()
     for i, (rid, r) in enumerate(wf):
@@ -334,7 +334,7 @@ def run(ctx):
             ctx.count("reactions_truncated_by_budget")
             break
         check_reaction(ctx, r, "corpus reactions")
-        for _ in range(1 if ctx.quick else 2):
+        for _ in range(1 if ctx.quick else 5):
             check_reaction(ctx, corpus.renumber(r, rng), "renumbered corpus reactions")
 
 
